@@ -993,7 +993,6 @@ func (t *Tree) Compile(file string, args []string, out io.Writer) (err error) {
 			t.warn(fmt.Errorf("illegal node type: %v", n.GetType()))
 		}
 	}
-	dryCompile := true
 
 	compile = func(n *node, ko uint) (labelLast bool) {
 		switch n.GetType() {
@@ -1132,11 +1131,9 @@ func (t *Tree) Compile(file string, args []string, out io.Writer) (err error) {
 					_print(" '%s'", escape(character.String()))
 				}
 				_print(":")
-				if !dryCompile {
-					sequence.SetParentDetect(true)
-					if class.Len() > 1 {
-						sequence.SetParentMultipleKey(true)
-					}
+				sequence.SetParentDetect(true)
+				if class.Len() > 1 {
+					sequence.SetParentMultipleKey(true)
 				}
 				if compile(sequence, done) {
 					_print("\nbreak")
@@ -1204,10 +1201,8 @@ func (t *Tree) Compile(file string, args []string, out io.Writer) (err error) {
 			printLabel(again)
 			printBegin()
 			printSave(out)
-			element := n.Front()
-			element.SetParentDetect(n.ParentDetect())
-			element.SetParentMultipleKey(n.ParentMultipleKey())
-			compile(element, out)
+			/* the first-character test of an enclosing case only covers the first iteration */
+			compile(n.Front(), out)
 			printJump(again)
 			printLabel(out)
 			printRestore(out)
@@ -1260,7 +1255,6 @@ func (t *Tree) Compile(file string, args []string, out io.Writer) (err error) {
 	}
 	_print = printTemp
 	label = 0
-	dryCompile = false
 
 	/* now for the real compile pass */
 	t.PegRuleType = "uint8"
